@@ -223,13 +223,22 @@ def rule_rankpairs(ctx):
     main = [r for r in s.returns if not all(is_lit(x) for x in r.term.a)] if all(r.term.op == "tuple" for r in s.returns) else []
     need(len(main) == 1, R, "_compare_frame_rankings: main return not found")
     adj = False
+    why_red = "transitive=False compares each level only with the next one ((i, i + 1))"
     for x in tm.walk(main[0].term):
         if x.op == "ite" and x.a[0].op == "param" and x.a[0].a[0] == "transitive":
             red = x.a[2]
             if red.op == "comp" and red.a[1].op == "tuple" and len(red.a[1].a) == 2:
                 i, j = red.a[1].a
                 adj = i.op == "iter" and j.op == "bin" and j.a[0] == "+" and {j.a[1], j.a[2]} == {i, tm.const(1)}
-    yield ob(R, f, "hierarchy._compare_frame_rankings:reduced", adj, "transitive=False compares each level only with the next one ((i, i + 1))")
+                if adj:
+                    # i must run over the level *values* (np.unique of the reference row), not over their positions:
+                    # (k, k + 1) over positions pairs consecutive present levels, so a gap in the depths counts as adjacent
+                    src = i.a[0]
+                    by_value = any(x.op == "call" and call_name(x) == "np.unique" for x in tm.walk(src)) and not any(x.op == "call" and call_name(x) in ("builtins.range", "np.arange", "builtins.len") for x in tm.walk(src))
+                    if not by_value:
+                        adj = False
+                        why_red = "transitive=False pairs (k, k + 1) over %s - positions, not level values: two present levels with a gap between them (a segment not subdivided at the next level) are compared as if adjacent" % tm.show(src, 3)
+    yield ob(R, f, "hierarchy._compare_frame_rankings:reduced", adj, why_red)
     zero = [r for r in s.returns if r.term.op == "tuple" and all(is_lit(x) and lit(x) == 0 for x in r.term.a)]
     yield ob(R, f, "hierarchy._compare_frame_rankings:no-triples", len(zero) == 1, "a query with no reference triple returns normalizer 0 (and is skipped by _gauc)")
     okd, dv = f.default_value("transitive")
@@ -284,7 +293,7 @@ def rule_framemap(ctx):
     outer = [it for lid, (node, it) in sorted(s.loops.items()) if it.op == "call" and call_name(it) == "builtins.enumerate"]
     if not outer:
         plain = [it for lid, (node, it) in sorted(s.loops.items()) if it is ih]
-        stores = [m for m in s.by_kind("mutate") if m.how in ("aug", "setitem") and m.key is not None and m.key.op == "tuple"]
+        stores = [m for m in s.by_kind("mutate") if (m.how == "setitem" and m.key is not None and m.key.op == "tuple") or (m.how == "aug" and any(x[0] == "loop" for x in m.pc))]
         if plain and stores:
             yield ob(R, f, "hierarchy._lca:level-order", False, "levels are no longer numbered by their position in the caller's list (the depth written is %s, %s): for non-nested hierarchies an accumulated count differs from the deepest level that keeps two frames together" % (tm.show(stores[0].val, 2) if stores[0].val is not None else "?", stores[0].how), node=stores[0].node)
             return
